@@ -68,6 +68,8 @@ def cases(tier, seed):
         out.append({'k': 'xoro', 'w': w, 'reqs': 0, 'variant': 'reload_inflight'})
     for bpc in (1, 2, 4, 8, 16, 32, 64):
         out.append({'k': 'trivium_step', 'bpc': bpc, 'w': 64 if bpc > 1 else 8})
+    for w, bpc in ((64, 64), (1, 64), (32, 32), (8, 8), (1, 1), (128, 64), (9, 8)):
+        out.append({'k': 'trivium_idle', 'bpc': bpc, 'w': w})
     for bpc in TRIV_BPC[tier]:
         for w in TRIV_W[tier]:
             out.append({'k': 'trivium', 'bpc': bpc, 'w': w})
@@ -121,7 +123,7 @@ def run_case(case, ob, tier):
         ob.fact('reference-trivium-reproduces-test-vectors', refs.trivium_selftest(), site)
         return
     fn = {'rom': do_rom, 'stage': do_stage, 'statem': do_statem, 'full': do_full, 'lfsr': do_lfsr, 'xoro': do_xoro,
-          'trivium': do_trivium, 'trivium_step': do_trivium_step}[k]
+          'trivium': do_trivium, 'trivium_step': do_trivium_step, 'trivium_idle': do_trivium_idle}[k]
     pyrtl.reset_working_block()
     SymTable._uf_cache.clear()
     fn(case, ob, site)
@@ -537,6 +539,22 @@ def do_trivium(case, ob, site):
     ob.prove_all(goals, r.pc, v)
 
 
+def do_trivium_idle(case, ob, site):
+    """power-on, before any load: nothing has been seeded or produced, so ready stays 0 (whatever sits on the seed input)"""
+    w, bpc = case['w'], case['bpc']
+    block = build_trivium(w, bpc)
+    K = 3
+    v = Vars()
+
+    def ins(t):
+        return {'load': 0, 'req': 0, 'seed': SymInt.mk(v.inp('seed', t, 160), False)}
+    with sym_env([block]):
+        rs = run_sim(block, K, v, reg_init='reset', mem_init='default', track='io', inputs_override=ins)
+    r = simdrv.single_path(rs)
+    ob.prove_all([('trivium:ready-stays-0-before-any-load@%d' % t, to_bv(r.trace['ready'][t], 1) == 0, site + ':ready')
+                  for t in range(K)], r.pc, v)
+
+
 def do_trivium_step(case, ob, site):
     """data path for every bits_per_cycle: one generation cycle from an arbitrary (a, b, c) = bpc reference clocks"""
     w, bpc = case['w'], case['bpc']
@@ -671,6 +689,15 @@ def replay(cex):
         if sim.inspect('ready') != (1 if cnt == 10 else 0):
             bad.append('ready=%d at counter=%d' % (sim.inspect('ready'), cnt))
         return bool(bad), 'state=%r inputs=%r\n%s' % (regs, ins, '\n'.join(bad))
+    if k == 'trivium_idle':
+        block = build_trivium(c['w'], c['bpc'])
+        sim = pyrtl.Simulation(block=block)
+        bad = []
+        for t in range(3):
+            sim.step({'load': 0, 'req': 0, 'seed': mv.get('inputs', {}).get('seed', [0, 0, 0])[t] if isinstance(mv.get('inputs', {}).get('seed'), list) else 0})
+            if sim.inspect('ready') != 0:
+                bad.append('cycle %d after power-on, no load yet: ready=1 (rand=%d)' % (t, sim.inspect('rand')))
+        return bool(bad), '\n'.join(bad)
     if k == 'lfsr':
         w = c['w']
         pyrtl.reset_working_block()
